@@ -2938,4 +2938,453 @@ theorem C01_synset_members_default_order {norm : String → String} {dr : Nat} {
       simp only [List.map_cons, ih]
   exact hfm hsub
 
+/-! ### end to end: tags and pronunciations after `add` -/
+
+/-- rows whose owner was resolved by a look-up: the rows of owner `x0` are the children whose look-up gives `x0` -/
+theorem looked_up_rows_filter {π ρ τ} (look : π → Option Nat) (owner : ρ → Nat) (payR : ρ → τ) (payD : π → τ) :
+    ∀ {pairs : List π} {rows : List ρ}, Forall2 (fun p r => look p = some (owner r) ∧ payR r = payD p) pairs rows →
+      ∀ (x0 : Nat), (rows.filter (fun r => owner r == x0)).map payR = (pairs.filter (fun p => look p == some x0)).map payD := by
+  intro pairs rows h
+  induction h with
+  | nil => intro _; rfl
+  | @cons p r ps rs h0 _ ih =>
+    intro x0
+    simp only [List.filter_cons]
+    rw [h0.1]
+    by_cases e : owner r = x0
+    · simp [e, ih x0, h0.2]
+    · have q1 : (owner r == x0) = false := by simpa using e
+      have q2 : (some (owner r) == some x0) = false := by simpa using e
+      rw [q1, q2]
+      exact ih x0
+
+/-- form-like elements of the document with their entry: (entry, (form id, rank, pronunciations, tags)) -/
+def formLikePairs (l : Lexicon) : List (Entry × (Option String × Option Nat × List Pron × List Tag)) :=
+  l.entries.flatMap (fun e => (formLikes e).map (fun fl => (e, fl)))
+
+abbrev FL := Option String × Option Nat × List Pron × List Tag
+
+def tagPairs (l : Lexicon) : List ((Entry × FL) × Tag) :=
+  l.entries.flatMap (fun e => (formLikes e).flatMap (fun fl => fl.2.2.2.map (fun t => ((e, fl), t))))
+def pronPairs (l : Lexicon) : List ((Entry × FL) × Pron) :=
+  l.entries.flatMap (fun e => (formLikes e).flatMap (fun fl => fl.2.2.1.map (fun t => ((e, fl), t))))
+
+/-- `FORM_QUERY`, on fixed `entries` / `forms` tables -/
+def formRowEF (fr : List REntry × List RForm) (eid : String) (lex : Nat) (fid : Option String) (rank : Option Nat) : Option Nat :=
+  match fr.1.find? (fun r => r.id == eid && r.lex == lex) with
+  | none => none
+  | some e =>
+    (fr.2.find? (fun f => f.entry == e.rowid &&
+      ((match fid, f.id with | some a, some b => a == b | _, _ => false) ||
+       (match rank with | some k => f.rank == k | none => false)))).map (·.rowid)
+
+theorem formRow_eq (db : Db) (eid : String) (lex : Nat) (fid : Option String) (rank : Option Nat) :
+    formRow db eid lex fid rank = formRowEF (db.entries, db.forms) eid lex fid rank := rfl
+
+theorem tagStep_ok (c : Ctx) (e : Entry) (fid : Option String) (rank : Option Nat) (b : Db) (t : Tag) (b' : Db)
+    (h : tagStep c e fid rank b t = .ok b') :
+    (b'.entries, b'.forms) = (b.entries, b.forms) ∧ ∃ row, b'.tags = b.tags ++ [row] ∧
+      formRowEF (b.entries, b.forms) e.id (c.lid e.id) fid rank = some row.form ∧ row.tag = t.text ∧ row.category = t.category := by
+  unfold tagStep at h
+  simp only [bind, Except.bind, need, pure, Except.pure] at h
+  cases h1 : formRow b e.id (c.lid e.id) fid rank with
+  | none => simp [h1] at h
+  | some fr =>
+    simp only [h1, Except.ok.injEq] at h
+    subst h
+    exact ⟨rfl, _, rfl, h1, rfl, rfl⟩
+
+theorem pronStep_ok (c : Ctx) (e : Entry) (fid : Option String) (rank : Option Nat) (b : Db) (p : Pron) (b' : Db)
+    (h : pronStep c e fid rank b p = .ok b') :
+    (b'.entries, b'.forms) = (b.entries, b.forms) ∧ ∃ row, b'.prons = b.prons ++ [row] ∧
+      formRowEF (b.entries, b.forms) e.id (c.lid e.id) fid rank = some row.form ∧
+      (row.value, row.variety, row.notat, row.phonemic, row.audio) = (p.text, p.variety, p.notat, boolOr p.phonemic true, p.audio) := by
+  unfold pronStep at h
+  simp only [bind, Except.bind, need, pure, Except.pure] at h
+  cases h1 : formRow b e.id (c.lid e.id) fid rank with
+  | none => simp [h1] at h
+  | some fr =>
+    simp only [h1, Except.ok.injEq] at h
+    subst h
+    exact ⟨rfl, _, rfl, h1, rfl⟩
+
+theorem insertPronsTags_split (l : Lexicon) (c : Ctx) (b b' : Db) (h : insertPronsTags b l c = .ok b') :
+    ∃ b1, l.entries.foldlM (fun db e => (formLikes e).foldlM (fun db fl => fl.2.2.1.foldlM (pronStep c e fl.1 fl.2.1) db) db) b = .ok b1 ∧
+      l.entries.foldlM (fun db e => (formLikes e).foldlM (fun db fl => fl.2.2.2.foldlM (tagStep c e fl.1 fl.2.1) db) db) b1 = .ok b' := by
+  unfold insertPronsTags at h
+  simp only [bind, Except.bind] at h
+  cases h1 : l.entries.foldlM (fun db e => (formLikes e).foldlM (fun db fl => fl.2.2.1.foldlM (pronStep c e fl.1 fl.2.1) db) db) b with
+  | error x => rw [h1] at h; simp at h
+  | ok b1 => rw [h1] at h; exact ⟨b1, rfl, h⟩
+
+theorem Forall2.map_left {α α' β} {R : α' → β → Prop} (f : α → α') : ∀ {l : List α} {l' : List β},
+    Forall2 (fun a b => R (f a) b) l l' → Forall2 R (l.map f) l' := by
+  intro l l' h
+  induction h with
+  | nil => exact Forall2.nil
+  | cons h0 _ ih => exact Forall2.cons h0 ih
+
+def TagRowOf (c : Ctx) (fr : List REntry × List RForm) (p : Entry × FL) (t : Tag) (row : RTag) : Prop :=
+  formRowEF fr p.1.id (c.lid p.1.id) p.2.1 p.2.2.1 = some row.form ∧ row.tag = t.text ∧ row.category = t.category
+def PronRowOf (c : Ctx) (fr : List REntry × List RForm) (p : Entry × FL) (t : Pron) (row : RPron) : Prop :=
+  formRowEF fr p.1.id (c.lid p.1.id) p.2.1 p.2.2.1 = some row.form ∧
+  (row.value, row.variety, row.notat, row.phonemic, row.audio) = (t.text, t.variety, t.notat, boolOr t.phonemic true, t.audio)
+
+/-- **the `tags` and `pronunciations` tables after one `addLexicon`** -/
+theorem addLexicon_tags_prons_tables {norm : String → String} {dr : Nat} {db db' : Db} {l : Lexicon}
+    (t : AddTrace norm dr db db' l) :
+    (∃ rows, db'.tags = db.tags ++ rows ∧
+      Forall2 (fun (q : (Entry × FL) × Tag) row => TagRowOf t.ctx (db'.entries, db'.forms) q.1 q.2 row) (tagPairs l) rows) ∧
+    (∃ rows, db'.prons = db.prons ++ rows ∧
+      Forall2 (fun (q : (Entry × FL) × Pron) row => PronRowOf t.ctx (db'.entries, db'.forms) q.1 q.2 row) (pronPairs l) rows) := by
+  let c : Ctx := ⟨t.lexid, t.extid, externalIds l⟩
+  -- before: tags and prons untouched
+  let π : Db → List RTag × List RPron := fun b => (b.tags, b.prons)
+  have k1 : π t.d1 = π (updateLookups db l) := by
+    have h := t.hlex
+    unfold insertLexicon at h
+    simp only [bind, Except.bind, pure, Except.pure] at h
+    split at h
+    · simp [throw, throwThe, MonadExcept.throw] at h
+    · split at h
+      · split at h
+        · simp at h
+        · simp only [Except.ok.injEq, Prod.mk.injEq] at h
+          obtain ⟨h, _, _⟩ := h; rw [← h]
+      · simp only [Except.ok.injEq, Prod.mk.injEq] at h
+        obtain ⟨h, _, _⟩ := h; rw [← h]
+  have k2 : π t.d2 = π t.d1 := keepsGF_insertSynsets π l c (fun p => by keepsG_step presupStep)
+    (by keepsG_step synsetStep) (by keepsG_step piliStep) _ _ t.hsyn
+  have k3 : π t.d3 = π t.d2 := keepsGF_insertEntries π l c (by keepsG_step entryStep) _ _ t.hent
+  have k4 : π t.d4 = π t.d3 := keepsGF_insertForms π (fun _ _ => rfl) norm l c _ _ t.hform
+  have hpre : π t.d4 = (db.tags, db.prons) := by rw [k4, k3, k2, k1]; rfl
+  obtain ⟨b1, h1, h2⟩ := insertPronsTags_split l c _ _ t.hpt
+  -- pronunciations
+  obtain ⟨f1, rss1, hr1, hF1⟩ := foldlM_rowsL (fun d => d.prons) (fun d => (d.entries, d.forms))
+    (fun db (e : Entry) => (formLikes e).foldlM (fun db fl => fl.2.2.1.foldlM (pronStep c e fl.1 fl.2.1) db) db)
+    (fun fr e rs => Forall2 (fun (q : FL × Pron) row => PronRowOf c fr (e, q.1) q.2 row) ((formLikes e).flatMap (fun fl => fl.2.2.1.map (fun x => (fl, x)))) rs)
+    (fun b e b' hh => by
+      obtain ⟨g1, rows, g2, g3⟩ := foldlM_rows_nested (fun d => d.prons) (fun d => (d.entries, d.forms)) (fun (fl : FL) => fl.2.2.1)
+        (fun fl => pronStep c e fl.1 fl.2.1) (fun fr fl x row => PronRowOf c fr (e, fl) x row)
+        (fun fl b x b' hh => pronStep_ok c e fl.1 fl.2.1 b x b' hh) (formLikes e) b b' hh
+      exact ⟨g1, rows, g2, g3⟩) l.entries _ _ h1
+  -- tags
+  obtain ⟨f2, rss2, hr2, hF2⟩ := foldlM_rowsL (fun d => d.tags) (fun d => (d.entries, d.forms))
+    (fun db (e : Entry) => (formLikes e).foldlM (fun db fl => fl.2.2.2.foldlM (tagStep c e fl.1 fl.2.1) db) db)
+    (fun fr e rs => Forall2 (fun (q : FL × Tag) row => TagRowOf c fr (e, q.1) q.2 row) ((formLikes e).flatMap (fun fl => fl.2.2.2.map (fun x => (fl, x)))) rs)
+    (fun b e b' hh => by
+      obtain ⟨g1, rows, g2, g3⟩ := foldlM_rows_nested (fun d => d.tags) (fun d => (d.entries, d.forms)) (fun (fl : FL) => fl.2.2.2)
+        (fun fl => tagStep c e fl.1 fl.2.1) (fun fr fl x row => TagRowOf c fr (e, fl) x row)
+        (fun fl b x b' hh => tagStep_ok c e fl.1 fl.2.1 b x b' hh) (formLikes e) b b' hh
+      exact ⟨g1, rows, g2, g3⟩) l.entries _ _ h2
+  -- cross frames inside the pass
+  let πt : Db → List RTag := fun b => b.tags
+  have t1 : πt b1 = πt t.d4 := by
+    apply keepsGF_fold πt _ _ _ _ _ h1
+    apply keepsG_nested πt (fun e => formLikes e) (fun e db fl => fl.2.2.1.foldlM (pronStep c e fl.1 fl.2.1) db)
+    intro e
+    exact fun b fl b' h => fold_keepsG πt _ (by keepsG_step pronStep) b fl.2.2.1 b' h
+  let πp : Db → List RPron := fun b => b.prons
+  have p2 : πp t.d5 = πp b1 := by
+    apply keepsGF_fold πp _ _ _ _ _ h2
+    apply keepsG_nested πp (fun e => formLikes e) (fun e db fl => fl.2.2.2.foldlM (tagStep c e fl.1 fl.2.1) db)
+    intro e
+    exact fun b fl b' h => fold_keepsG πp _ (by keepsG_step tagStep) b fl.2.2.2 b' h
+  -- after: nothing touches tags, prons, entries, forms
+  let π4 : Db → List RTag × List RPron × List REntry × List RForm := fun b => (b.tags, b.prons, b.entries, b.forms)
+  have a6 : π4 t.d6 = π4 t.d5 := keepsGF_insertSenses π4 l c dr (fun _ => by keepsG_step senseStep)
+    (by keepsG_step adjStep) (fun _ => by keepsG_step countStep) _ _ t.hsen
+  have a7 : π4 t.d7 = π4 t.d6 := keepsGF_insertSbs π4 t.sbs c (by keepsG_step sbStep) (fun _ => by keepsG_step sbSenseStep) _ _ t.hsb
+  have a8 : π4 t.d8 = π4 t.d7 := keepsGF_insertRelations π4 l c (fun _ => by keepsG_step synRelStep)
+    (by keepsG_step senseRelStep) (by keepsG_step senseSynRelStep) _ _ t.hrel
+  have a9 : π4 db' = π4 t.d8 := keepsGF_insertDefsExamples π4 l c (fun _ => by keepsG_step defStep)
+    (fun _ => by keepsG_step senseExampleStep) (fun _ => by keepsG_step synsetExampleStep) _ _ t.hdx
+  have hpost : π4 db' = π4 t.d5 := by rw [a9, a8, a7, a6]
+  have q1 : db'.tags = t.d5.tags := congrArg (fun x => x.1) hpost
+  have q2 : db'.prons = t.d5.prons := congrArg (fun x => x.2.1) hpost
+  have q3 : db'.entries = t.d5.entries := congrArg (fun x => x.2.2.1) hpost
+  have q4 : db'.forms = t.d5.forms := congrArg (fun x => x.2.2.2) hpost
+  have e51 : (t.d5.entries, t.d5.forms) = (b1.entries, b1.forms) := f2
+  have e14 : (b1.entries, b1.forms) = (t.d4.entries, t.d4.forms) := f1
+  have hfr : (db'.entries, db'.forms) = (b1.entries, b1.forms) := by rw [q3, q4]; exact e51
+  have hfr4 : (db'.entries, db'.forms) = (t.d4.entries, t.d4.forms) := hfr.trans e14
+  constructor
+  · refine ⟨rss2.flatten, ?_, ?_⟩
+    · rw [q1, hr2]
+      have : b1.tags = db.tags := by
+        show πt b1 = _
+        rw [t1]; exact congrArg Prod.fst hpre
+      rw [this]
+    · rw [hfr]
+      have := Forall2.flatten_blocks (fun (e : Entry) => ((formLikes e).flatMap (fun fl => fl.2.2.2.map (fun x => (fl, x)))).map (fun q => ((e, q.1), q.2)))
+        (fun (q : (Entry × FL) × Tag) row => TagRowOf c (b1.entries, b1.forms) q.1 q.2 row)
+        (Forall2.imp (fun e rs hh => Forall2.map_left (fun (q : FL × Tag) => ((e, q.1), q.2)) hh) hF2)
+      have heq : l.entries.flatMap (fun (e : Entry) => ((formLikes e).flatMap (fun fl => fl.2.2.2.map (fun x => (fl, x)))).map (fun q => ((e, q.1), q.2))) = tagPairs l := by
+        unfold tagPairs
+        congr 1
+        funext e
+        rw [List.map_flatMap]
+        congr 1
+        funext fl
+        rw [List.map_map]
+        rfl
+      rw [heq] at this
+      exact this
+  · refine ⟨rss1.flatten, ?_, ?_⟩
+    · rw [q2]
+      show πp t.d5 = _
+      rw [p2]
+      show b1.prons = _
+      rw [hr1]
+      have : t.d4.prons = db.prons := congrArg Prod.snd hpre
+      rw [this]
+    · rw [hfr4]
+      have := Forall2.flatten_blocks (fun (e : Entry) => ((formLikes e).flatMap (fun fl => fl.2.2.1.map (fun x => (fl, x)))).map (fun q => ((e, q.1), q.2)))
+        (fun (q : (Entry × FL) × Pron) row => PronRowOf c (t.d4.entries, t.d4.forms) q.1 q.2 row)
+        (Forall2.imp (fun e rs hh => Forall2.map_left (fun (q : FL × Pron) => ((e, q.1), q.2)) hh) hF1)
+      have heq : l.entries.flatMap (fun (e : Entry) => ((formLikes e).flatMap (fun fl => fl.2.2.1.map (fun x => (fl, x)))).map (fun q => ((e, q.1), q.2))) = pronPairs l := by
+        unfold pronPairs
+        congr 1
+        funext e
+        rw [List.map_flatMap]
+        congr 1
+        funext fl
+        rw [List.map_map]
+        rfl
+      rw [heq] at this
+      exact this
+
+/-- **C01, tags of a form, end to end**: for a form row `f0` written by this add, `get_form_tags`
+reports exactly the `<Tag>`s of the document's form-like elements (lemma or form, with the
+(id, rank) pair `FORM_QUERY` is asked for) that resolve to `f0`, in document order, text and category
+unaltered — provided the tags already stored point at forms already stored -/
+theorem C01_form_tags_end_to_end {norm : String → String} {dr : Nat} {db db' : Db} {l : Lexicon}
+    (t : AddTrace norm dr db db' l)
+    (hfk : ∀ o ∈ db.tags, o.form ∈ db.forms.map (·.rowid)) (f0 : Nat) (hnew : f0 ∉ db.forms.map (·.rowid)) :
+    (formTags db' f0).map (fun r => (r.tag, r.category)) =
+      ((tagPairs l).filter (fun q => formRow db' q.1.1.id (t.ctx.lid q.1.1.id) q.1.2.1 q.1.2.2.1 == some f0)).map
+        (fun q => (q.2.text, q.2.category)) := by
+  obtain ⟨⟨rows, hrows, hF⟩, _⟩ := addLexicon_tags_prons_tables t
+  unfold formTags
+  rw [hrows, List.filter_append]
+  have hold : db.tags.filter (fun r => r.form == f0) = [] := by
+    rw [List.filter_eq_nil_iff]
+    intro o ho
+    have : o.form ≠ f0 := fun e => hnew (e ▸ hfk o ho)
+    simpa using this
+  rw [hold, List.nil_append]
+  exact looked_up_rows_filter (fun (q : (Entry × FL) × Tag) => formRow db' q.1.1.id (t.ctx.lid q.1.1.id) q.1.2.1 q.1.2.2.1)
+    (·.form) (fun r : RTag => (r.tag, r.category)) (fun q => (q.2.text, q.2.category))
+    (Forall2.imp (fun q r hr => ⟨hr.1, by rw [hr.2.1, hr.2.2]⟩) hF) f0
+
+/-- **C01, pronunciations of a form, end to end** -/
+theorem C01_form_pronunciations_end_to_end {norm : String → String} {dr : Nat} {db db' : Db} {l : Lexicon}
+    (t : AddTrace norm dr db db' l)
+    (hfk : ∀ o ∈ db.prons, o.form ∈ db.forms.map (·.rowid)) (f0 : Nat) (hnew : f0 ∉ db.forms.map (·.rowid)) :
+    (formProns db' f0).map (fun r => (r.value, r.variety, r.notat, r.phonemic, r.audio)) =
+      ((pronPairs l).filter (fun q => formRow db' q.1.1.id (t.ctx.lid q.1.1.id) q.1.2.1 q.1.2.2.1 == some f0)).map
+        (fun q => (q.2.text, q.2.variety, q.2.notat, boolOr q.2.phonemic true, q.2.audio)) := by
+  obtain ⟨_, ⟨rows, hrows, hF⟩⟩ := addLexicon_tags_prons_tables t
+  unfold formProns
+  rw [hrows, List.filter_append]
+  have hold : db.prons.filter (fun r => r.form == f0) = [] := by
+    rw [List.filter_eq_nil_iff]
+    intro o ho
+    have : o.form ≠ f0 := fun e => hnew (e ▸ hfk o ho)
+    simpa using this
+  rw [hold, List.nil_append]
+  exact looked_up_rows_filter (fun (q : (Entry × FL) × Pron) => formRow db' q.1.1.id (t.ctx.lid q.1.1.id) q.1.2.1 q.1.2.2.1)
+    (·.form) (fun r : RPron => (r.value, r.variety, r.notat, r.phonemic, r.audio))
+    (fun q => (q.2.text, q.2.variety, q.2.notat, boolOr q.2.phonemic true, q.2.audio))
+    (Forall2.imp (fun q r hr => ⟨hr.1, hr.2⟩) hF) f0
+
+/-! ### members of a synset in the order of its `members` attribute -/
+
+theorem insertBy_perm {α} (key : α → Nat) (a : α) : ∀ (l : List α), (insertBy key a l).Perm (a :: l) := by
+  intro l
+  induction l with
+  | nil => exact List.Perm.refl _
+  | cons b t ih =>
+    simp only [insertBy]
+    split
+    · exact (List.Perm.cons b ih).trans (List.Perm.swap a b t)
+    · exact List.Perm.refl _
+
+theorem sortBy_perm {α} (key : α → Nat) (l : List α) : (sortBy key l).Perm l := by
+  unfold sortBy
+  suffices ∀ (l acc : List α), (l.foldl (fun acc a => insertBy key a acc) acc).Perm (acc ++ l) by
+    simpa using this l []
+  intro l
+  induction l with
+  | nil => intro acc; simp
+  | cons a t ih =>
+    intro acc
+    simp only [List.foldl_cons]
+    refine (ih (insertBy key a acc)).trans ?_
+    have h1 : (insertBy key a acc ++ t).Perm ((a :: acc) ++ t) := List.Perm.append_right t (insertBy_perm key a acc)
+    refine h1.trans ?_
+    simp only [List.cons_append]
+    exact (List.perm_middle).symm
+
+theorem insertBy_sorted {α} (key : α → Nat) (a : α) : ∀ (l : List α), l.Pairwise (fun x y => key x ≤ key y) →
+    (insertBy key a l).Pairwise (fun x y => key x ≤ key y) := by
+  intro l
+  induction l with
+  | nil => intro _; simp [insertBy]
+  | cons b t ih =>
+    intro h
+    rw [List.pairwise_cons] at h
+    simp only [insertBy]
+    split
+    · rename_i hle
+      rw [List.pairwise_cons]
+      refine ⟨?_, ih h.2⟩
+      intro x hx
+      rcases (mem_insertBy key a t x).mp hx with rfl | hx
+      · exact hle
+      · exact h.1 x hx
+    · rename_i hnle
+      rw [List.pairwise_cons]
+      refine ⟨?_, List.pairwise_cons.mpr h⟩
+      intro x hx
+      rcases List.mem_cons.mp hx with rfl | hx
+      · omega
+      · have := h.1 x hx; omega
+
+theorem sortBy_sorted {α} (key : α → Nat) (l : List α) : (sortBy key l).Pairwise (fun x y => key x ≤ key y) := by
+  unfold sortBy
+  suffices ∀ (l acc : List α), acc.Pairwise (fun x y => key x ≤ key y) →
+      (l.foldl (fun acc a => insertBy key a acc) acc).Pairwise (fun x y => key x ≤ key y) by
+    exact this l [] List.Pairwise.nil
+  intro l
+  induction l with
+  | nil => intro acc h; exact h
+  | cons a t ih => intro acc h; exact ih _ (insertBy_sorted key a acc h)
+
+theorem idxOf_pairwise_of_nodup : ∀ (M : List String), M.Nodup → M.Pairwise (fun a b => M.idxOf a ≤ M.idxOf b) := by
+  intro M
+  induction M with
+  | nil => intro _; exact List.Pairwise.nil
+  | cons a t ih =>
+    intro h
+    rw [List.nodup_cons] at h
+    rw [List.pairwise_cons]
+    constructor
+    · intro b _
+      simp [List.idxOf_cons]
+    · have := ih h.2
+      refine List.Pairwise.imp_of_mem ?_ this
+      intro x y hx hy hxy
+      have hxa : (a == x) = false := by
+        have : a ≠ x := fun e => h.1 (e ▸ hx)
+        simpa using this
+      have hya : (a == y) = false := by
+        have : a ≠ y := fun e => h.1 (e ▸ hy)
+        simpa using this
+      simp only [List.idxOf_cons, hxa, hya, cond_false]
+      omega
+
+theorem idxOf_inj_of_mem (M : List String) (a b : String) (ha : a ∈ M) (h : M.idxOf a = M.idxOf b) : a = b := by
+  have h1 := List.getElem_idxOf (List.idxOf_lt_length_of_mem ha)
+  have hb : M.idxOf b < M.length := by rw [← h]; exact List.idxOf_lt_length_of_mem ha
+  have h2 := List.getElem_idxOf hb
+  rw [← h1, ← h2]
+  simp only [h]
+
+/-- **C01, members of a synset in the order of its `members` attribute**: when the senses that
+reference the synset are exactly the ids listed in `members` (each once) and each is ranked by its
+position there, `get_synset_members` lists them in exactly that order -/
+theorem C01_synset_members_listed_order {norm : String → String} {dr : Nat} {db db' : Db} {l : Lexicon}
+    (t : AddTrace norm dr db db' l)
+    (hfkS : ∀ o ∈ db.senses, o.lex ∈ db.lexicons.map (·.rowid))
+    (hnE : (db.entries.map (·.rowid)).Nodup) (hnY : (db.synsets.map (·.rowid)).Nodup)
+    (sid : String) (x0 : Nat) (hx0 : synsetRow db' sid (t.ctx.lid sid) = some x0)
+    (M : List String) (hM : M.Nodup)
+    (hcover : (((sensePairs l).filter (fun p => p.2.1.synset == sid)).map (fun p => p.2.1.id)).Perm M)
+    (hrank : ∀ p ∈ sensePairs l, p.2.1.synset = sid → memberRank l dr p.2.1.id = M.idxOf p.2.1.id) :
+    (synsetMembers db' x0 [t.lexid]).map (fun s => s.id) = M := by
+  obtain ⟨hE, hY, rows, hrows, hF, _⟩ := addLexicon_sense_table t
+  obtain ⟨rows', hrows', hR⟩ := addLexicon_sense_ranks t
+  have heq : rows = rows' := List.append_cancel_left (hrows.symm.trans hrows')
+  rw [← heq] at hR
+  have hFR := Forall2.and hF hR
+  obtain ⟨_, g2, g3⟩ := insertLexicon_frame2 _ _ _ _ _ t.hlex
+  have hlexid : t.lexid = nextId (db.lexicons.map (·.rowid)) := (insertLexicon_frame _ _ _ _ _ t.hlex).2.2.1
+  have hnY' : (db'.synsets.map (·.rowid)).Nodup := by
+    rw [hY]
+    apply insertSynsets_nodupY _ _ _ _ t.hsyn
+    rw [g2]; exact hnY
+  have hnE' : (db'.entries.map (·.rowid)).Nodup := by
+    rw [hE]
+    apply insertEntries_nodupE _ _ _ _ t.hent
+    rw [(keepsF_insertSynsets l _ _ _ t.hsyn).1, g3]; exact hnE
+  have hx0' : synsetRowY' db'.synsets sid (t.ctx.lid sid) = some x0 := hx0
+  unfold synsetMembers
+  rw [hrows]
+  rw [filter_owned_append db.senses rows (·.synset) (·.lex) x0 t.lexid
+    (fun o ho e' => by have := hfkS o ho; rw [e', hlexid] at this; exact nextId_not_mem _ this)
+    (Forall2.forall_right (fun _ _ hr => hr.2.1) hF)]
+  have hsub : Forall2 (fun (p : Entry × (Sense × Nat)) row => SenseRowT t.ctx (db'.entries, db'.synsets) p.1 p.2 row ∧
+        (row.srank = memberRank l dr p.2.1.id ∧ row.id = p.2.1.id))
+      ((sensePairs l).filter (fun p => p.2.1.synset == sid)) (rows.filter (fun r => r.synset == x0)) := by
+    apply Forall2.filter_agree _ _ _ hFR
+    intro p row hr
+    by_cases q : p.2.1.synset = sid
+    · have : row.synset = x0 := by
+        have h5 := hr.1.2.2.2.2
+        simp only at h5
+        rw [q, hx0'] at h5
+        exact (Option.some.inj h5).symm
+      simp [q, this]
+    · have : row.synset ≠ x0 := by
+        intro q'
+        have h5 := hr.1.2.2.2.2
+        simp only at h5
+        exact q (synsetRowY'_inj _ hnY' _ _ _ _ (by rw [h5, q']) hx0')
+      have q1 : (p.2.1.synset == sid) = false := by simpa using q
+      have q2 : (row.synset == x0) = false := by simpa using this
+      rw [q1, q2]
+  -- ranks are the positions in `members`
+  have hkey : ∀ r ∈ rows.filter (fun r => r.synset == x0), r.srank = M.idxOf r.id := by
+    intro r hr
+    obtain ⟨p, hp, hpr⟩ := Forall2.exists_of_mem_right hsub r hr
+    obtain ⟨hpm, hps⟩ := List.mem_filter.mp hp
+    rw [hpr.2.1, hpr.2.2]
+    exact hrank p hpm (by simpa using hps)
+  have hdec : ∀ r ∈ rows.filter (fun r => r.synset == x0), ∃ d, senseData db' r = some d ∧ d.id = r.id := by
+    intro r hr
+    obtain ⟨p, _, hpr⟩ := Forall2.exists_of_mem_right hsub r hr
+    obtain ⟨a1, _, _, a4, a5⟩ := hpr.1
+    exact ⟨_, senseData_resolve db' r p.1.id p.2.1.synset _ _ a4 a5 hnE' hnY', rfl⟩
+  have hfm : ∀ (S : List RSense), (∀ r ∈ S, ∃ d, senseData db' r = some d ∧ d.id = r.id) →
+      (S.filterMap (senseData db')).map (fun s => s.id) = S.map (·.id) := by
+    intro S
+    induction S with
+    | nil => intro _; rfl
+    | cons a S ih =>
+      intro h
+      obtain ⟨d, hd, hdi⟩ := h a List.mem_cons_self
+      rw [List.filterMap_cons, hd]
+      simp only [List.map_cons, hdi, ih (fun r hr => h r (List.mem_cons_of_mem _ hr))]
+  rw [hfm _ (fun r hr => hdec r ((mem_sortBy _ _ r).mp hr))]
+  -- a permutation of `members`, sorted by position in `members`
+  have hperm : ((sortBy (·.srank) (rows.filter (fun r => r.synset == x0))).map (·.id)).Perm M := by
+    refine ((sortBy_perm _ _).map _).trans ?_
+    have : (rows.filter (fun r => r.synset == x0)).map (·.id) =
+        ((sensePairs l).filter (fun p => p.2.1.synset == sid)).map (fun p => p.2.1.id) :=
+      Forall2.map_eq (fun r : RSense => r.id) (fun p : Entry × (Sense × Nat) => p.2.1.id) (fun _ _ hr => hr.2.2) hsub
+    rw [this]
+    exact hcover
+  have hsorted : ((sortBy (·.srank) (rows.filter (fun r => r.synset == x0))).map (·.id)).Pairwise
+      (fun a b => M.idxOf a ≤ M.idxOf b) := by
+    rw [List.pairwise_map]
+    refine List.Pairwise.imp_of_mem ?_ (sortBy_sorted (fun r : RSense => r.srank) _)
+    intro a b ha hb hab
+    rw [← hkey a ((mem_sortBy _ _ a).mp ha), ← hkey b ((mem_sortBy _ _ b).mp hb)]
+    exact hab
+  exact List.Perm.eq_of_pairwise (le := fun a b => M.idxOf a ≤ M.idxOf b)
+    (fun a b ha _ h1 h2 => idxOf_inj_of_mem M a b (hperm.subset ha) (Nat.le_antisymm h1 h2))
+    hsorted (idxOf_pairwise_of_nodup M hM) hperm
+
+
 end WnVerif.Props.C01
